@@ -408,7 +408,25 @@ def _plain(repo, col):
                               "not a jax function object",
                               f"`{unparse(s_.node)[:70]}` stores a jax function object on the instance: jax functions are not picklable by "
                               f"reference, so pickle.dumps of every module containing a {cname} raises (deepcopy still works)", node=s_.node)
-    if n < 20:
+    # (c) the same for ANY object a package function stores into -- a synapse or channel handed in, an element of a module's list:
+    # `synapse._vmapped = vmap(synapse.compute_current)` hangs a transformed closure on an object that lives inside the module
+    nc = 0
+    for fi in repo.all_functions():
+        if not fi.file.startswith("jaxley/"):
+            continue
+        ex = idx.expander(repo, fi)
+        for s_ in ex.stores:
+            if s_.kind != "attr" or (s_.base.op == "param" and s_.base.name == "self"):
+                continue
+            nc += 1
+            v = s_.value
+            tr = T.find(v, lambda x: x.op in ("call", "mcall") and x.name in ("jit", "vmap", "grad", "value_and_grad", "checkpoint", "pmap", "remat"))
+            if tr is not None and v.op in ("call", "mcall", "callv", "ifexp", "phi"):
+                col.bad(R, fi, f"{fi.qual}: `{unparse(s_.node)[:60]}` stores plain data",
+                        f"`{unparse(s_.node)[:80]}` stores a jax-transformed function on an object: the wrapper is a local closure (here around a bound method), "
+                        f"pickle.dumps of every module that contains the object raises once the line has run (e.g. after the first simulation), and a deep "
+                        f"copy keeps calling the ORIGINAL's method", node=s_.node)
+    if n < 20 or nc < 20:
         raise AnalysisError(f"only {n} attribute stores / decorators examined")
 
 
